@@ -77,6 +77,7 @@ DEFAULT_PROFILE = {
     'defval': True,
     'defval_bits': True,
     'defval_empty_string': False,
+    'defval_empty_bits': False,   # DEFVAL { {} } (D33)
     'compl_object_first': False,
     'v1_int_index': False,
     'max_depth_arcs': 3,
@@ -85,6 +86,7 @@ DEFAULT_PROFILE = {
     'hyphen_imports': True,       # importing a hyphenated object name from another generated module (D16)
     'enum_defval_via_type': True,  # D22
     'multi_import_clauses': True,
+    'allow_no_imports': True,     # a module without any IMPORTS clause (D30)
 }
 
 
@@ -246,7 +248,9 @@ class Builder(object):
             self.nodes.append({'module': mod, 'name': n, 'oid': tuple(oid), 'fixture': True})
         for n, (mod, kind, enum) in fixtures.FIXTURE_TYPES.items():
             self.types.append({'module': mod, 'name': n, 'kind': kind, 'enum': enum, 'bits': None, 'tc': True,
-                               'chain': 1, 'fixture': True})
+                               'chain': 1, 'fixture': True, 'constrained': False,
+                               'nat': [0, U32] if n == 'TimeStamp' else ([-2147483648, 2147483647] if kind == 'int' else None),
+                               'fixedlen': None})
 
     # -- helpers ----------------------------------------------------------
 
@@ -388,10 +392,12 @@ class Builder(object):
             cands = self.visible_types(mod)
             t = draw(st.sampled_from(cands))
             sub = None
-            info = {'kind': t['kind'], 'enum': t['enum'], 'bits': t['bits'], 'chain': t['chain'], 'inline_enum': False}
+            info = {'kind': t['kind'], 'enum': t['enum'], 'bits': t['bits'], 'chain': t['chain'], 'inline_enum': False,
+                    'constrained': t['constrained'], 'nat': t['nat'], 'fixedlen': t['fixedlen'], 'ranges': None}
             r = draw(st.integers(0, 3))
             if t['kind'] == 'int' and r == 0 and not t['enum']:
                 sub = ['range', self.ranges(-2147483648, 2147483647)]
+                info['constrained'] = True
             elif t['kind'] == 'int' and r == 1 and t['enum'] and not t.get('fixture'):
                 # refinement of an enumerated type by a sub-enumeration
                 items = [list(x) for x in t['enum']]
@@ -400,6 +406,7 @@ class Builder(object):
                 info = dict(info, enum=items[:keep], inline_enum=True)
             elif t['kind'] == 'octets' and r == 0:
                 sub = ['size', self.ranges(0, 65535)]
+                info['constrained'] = True
             return {'base': ['named', t['name'], t['module']], 'sub': sub, 'tag': None}, info
         if kind == 'int':
             base = draw(st.sampled_from(V1_INT_BASES if v1 else INT_BASES))
@@ -416,22 +423,32 @@ class Builder(object):
                     sub = ['range', self.ranges(0, U64)]
                 else:
                     sub = ['range', self.ranges(0, U32)]
+            nat = [-2147483648, 2147483647] if base in ('INTEGER', 'Integer32') else ([0, U64] if base == 'Counter64' else [0, U32])
+            rngs = [[r_[0]['v'], r_[-1]['v']] for r_ in sub[1]] if (sub and sub[0] == 'range') else None
             return {'base': base, 'sub': sub, 'tag': None}, {'kind': 'int', 'enum': enum, 'bits': None, 'chain': 0,
-                                                               'inline_enum': bool(enum)}
+                                                               'inline_enum': bool(enum), 'constrained': bool(rngs),
+                                                               'nat': nat, 'fixedlen': None, 'ranges': rngs}
         if kind == 'octets':
             base = draw(st.sampled_from(V1_OCTET_BASES if v1 else OCTET_BASES))
             sub = None
             if base in ('OCTET STRING', 'Opaque') and draw(st.booleans()):
                 sub = ['size', self.ranges(0, 65535)]
+            rngs = [[r_[0]['v'], r_[-1]['v']] for r_ in sub[1]] if sub else None
             return {'base': base, 'sub': sub, 'tag': None}, {'kind': 'octets', 'enum': None, 'bits': None, 'chain': 0,
-                                                               'inline_enum': False}
+                                                               'inline_enum': False, 'constrained': bool(rngs),
+                                                               'nat': None, 'ranges': rngs, 'opaque': base == 'Opaque',
+                                                               'fixedlen': 4 if base in ('IpAddress', 'NetworkAddress') else None}
         if kind == 'oid':
             return {'base': 'OBJECT IDENTIFIER', 'sub': None, 'tag': None}, {'kind': 'oid', 'enum': None, 'bits': None,
-                                                                             'chain': 0, 'inline_enum': False}
+                                                                             'chain': 0, 'inline_enum': False,
+                                                                             'constrained': False, 'nat': None,
+                                                                             'fixedlen': None, 'ranges': None}
         if kind == 'bits':
             bits = self.bit_items()
             return {'base': 'BITS', 'sub': ['bits', bits], 'tag': None}, {'kind': 'bits', 'enum': None, 'bits': bits,
-                                                                          'chain': 0, 'inline_enum': False}
+                                                                          'chain': 0, 'inline_enum': False,
+                                                                          'constrained': False, 'nat': None,
+                                                                          'fixedlen': None, 'ranges': None}
         raise KeyError(kind)
 
     def defval(self, mod, info):
@@ -446,26 +463,54 @@ class Builder(object):
                     return None
                 lab = draw(st.sampled_from([x[0] for x in info['enum']]))
                 return {'f': 'enum', 't': lab, 'label': lab}
+            rngs = info.get('ranges')
+            if info['constrained'] and not (info['chain'] == 0 and rngs):
+                return None
+            lo, hi = info['nat'] or [-2147483648, 2147483647]
             r = draw(st.integers(0, 2))
+            if rngs:
+                pick = draw(st.sampled_from(rngs))
+                v = draw(st.sampled_from(pick))
+                if r != 0 and v < 0:
+                    r = 0
+            elif r == 0:
+                v = draw(number_value(lo, hi))
+            else:
+                v = draw(number_value(0, min(hi, U32)))
             if r == 0:
-                v = draw(number_value(-U64, U64))
                 return {'f': 'decimal', 't': str(v), 'v': v}
-            v = draw(number_value(0, U32))
             pad = '0' * draw(st.integers(0, 2))
             if r == 1:
                 return {'f': 'hex', 't': "'%s%x'%s" % (pad, v, draw(st.sampled_from('hH'))), 'v': v}
             return {'f': 'bin', 't': "'%s%s'%s" % (pad, bin(v)[2:], draw(st.sampled_from('bB'))), 'v': v}
         if kind == 'octets':
+            if info.get('opaque'):
+                return None
+            rngs = info.get('ranges')
+            if info['constrained'] and not (info['chain'] == 0 and rngs):
+                return None
+            n = None
+            if info['fixedlen']:
+                n = info['fixedlen']
+            elif rngs:
+                n = draw(st.sampled_from(draw(st.sampled_from(rngs))))
+                if n > 12:
+                    return None
             r = draw(st.integers(0, 2))
+            if info['fixedlen']:
+                r = 1
             if r == 0:
-                s = draw(ctext('abcdefXYZ 0189.-_/', min_size=0 if self.prof['defval_empty_string'] else 1,
-                                 max_size=10))
+                lo_ = n if n is not None else (0 if self.prof['defval_empty_string'] else 1)
+                hi_ = n if n is not None else 10
+                if lo_ == 0 and not self.prof['defval_empty_string']:
+                    return None
+                s = draw(ctext('abcdefXYZ 0189.-_/', min_size=lo_, max_size=hi_))
                 return {'f': 'string', 't': '"%s"' % s, 's': s}
-            if r == 1:
+            if n is None:
                 n = draw(st.integers(0, 6))
+            if r == 1:
                 digits = draw(ctext('0123456789abcdefABCDEF', min_size=2 * n, max_size=2 * n))
                 return {'f': 'hexstr', 't': "'%s'%s" % (digits, draw(st.sampled_from('hH'))), 'digits': digits}
-            n = draw(st.integers(0, 3))
             digits = draw(ctext('01', min_size=8 * n, max_size=8 * n))
             return {'f': 'binstr', 't': "'%s'%s" % (digits, draw(st.sampled_from('bB'))), 'digits': digits}
         if kind == 'oid':
@@ -475,7 +520,7 @@ class Builder(object):
         if kind == 'bits':
             if not self.prof['defval_bits'] or not info['bits']:
                 return None
-            k = draw(st.integers(0, len(info['bits'])))
+            k = draw(st.integers(0 if self.prof['defval_empty_bits'] else 1, len(info['bits'])))
             chosen = [x[0] for x in info['bits']][:k]
             return {'f': 'bits', 'names': chosen, 't': None}
         return None
@@ -500,7 +545,8 @@ def _gen_type_decl(b, mod):
     else:
         d = {'k': 'td', 'name': name, 'syntax': syn}
     b.types.append({'module': mod['name'], 'name': name, 'kind': info['kind'], 'enum': info['enum'],
-                    'bits': info['bits'], 'tc': is_tc, 'chain': info['chain'] + 1})
+                    'bits': info['bits'], 'tc': is_tc, 'chain': info['chain'] + 1,
+                    'constrained': info['constrained'], 'nat': info['nat'], 'fixedlen': info['fixedlen']})
     return [d]
 
 
@@ -1001,6 +1047,8 @@ def module_sets(draw, prof=None):
         if prof['skipblocks'] and draw(st.integers(0, 3)) == 0:
             mod['exports'] = _body(draw, (';',)).replace('--', '- -')
         need = _needs(mod, b)
+        if not need and not prof['allow_no_imports']:
+            need = [['RFC1155-SMI', 'Counter']] if dialect == 'v1' else [['SNMPv2-SMI', 'Integer32']]
         if need:
             need = list(draw(st.permutations(need)))
             clauses = []
